@@ -796,6 +796,15 @@ int run_io(struct eventloop *loop, const struct cmdline_config *config)
 		ret = run_io_all_interfaces(loop, config, handler, ARRAY_SIZE(handler));
 	}
 
+	/*
+	 * Connections accepted by the first accept pass of a listener are
+	 * still alive when a later start-up step failed (run_jet releases
+	 * them only after the loop ran). Both calls do nothing when run_jet
+	 * got that far.
+	 */
+	destroy_all_peers();
+	destroy_all_http_connections();
+
 	loop->destroy(loop->this_ptr);
 eventloop_init_failed:
 	unregister_signal_handler();
